@@ -47,6 +47,46 @@ def roundtrip(fmt, m, sort):
     return copy.deepcopy(m)
 
 
+def save(fmt, m, sort):
+    """-> the saved document (dict / text / bytes / file content)"""
+    if fmt == "dict":
+        return model_to_dict(m, sort=sort)
+    if fmt == "json-string":
+        return to_json(m, sort=sort)
+    if fmt == "yaml-string":
+        return to_yaml(m, sort=sort)
+    if fmt in ("json-file", "yaml-file"):
+        f = io.StringIO()
+        (save_json_model if fmt == "json-file" else save_yaml_model)(m, f, sort=sort)
+        return f.getvalue()
+    if fmt == "pickle":
+        return pickle.dumps(m)
+    return m
+
+
+def load(fmt, doc):
+    if fmt == "dict":
+        return model_from_dict(doc)
+    if fmt == "json-string":
+        return from_json(doc)
+    if fmt == "yaml-string":
+        return from_yaml(doc)
+    if fmt == "json-file":
+        return load_json_model(io.StringIO(doc))
+    if fmt == "yaml-file":
+        return load_yaml_model(io.StringIO(doc))
+    if fmt == "pickle":
+        return pickle.loads(doc)
+    return copy.deepcopy(doc)
+
+
+def _touch_containers(model):
+    """edit in place every free-form container of a loaded model (what a user does with it next)"""
+    for obj in list(model.reactions) + list(model.metabolites) + list(model.genes) + [model]:
+        obj.notes["touched"] = "yes"
+        obj.annotation["touched"] = ["yes"]
+
+
 def c11_roundtrip(E, formats=FORMATS):
     env.for_path(E)
     cfgb = E.pick("config_bounds", [(-1000.0, 1000.0), (-10.0, 10.0)])
@@ -97,7 +137,32 @@ def c11_roundtrip(E, formats=FORMATS):
         a["lp"]["objective"].pop("direction", None)
         b["lp"]["objective"].pop("direction", None)
         same(E, a, b, "roundtrip=same-model", ignore_order=sort, skip=skip, what=fmt)
-        same(E, observe(m), dict(observe(m)), "saving-leaves-the-model-alone") if False else None
+        # one saved document loaded twice, the first loaded model edited in between: the document is not consumed and the
+        # loaded models share nothing with each other or with the loader
+        if fmt != "deepcopy":
+            try:
+                doc = save(fmt, m, sort)
+                keep = copy.deepcopy(doc) if fmt == "dict" else doc
+                first = load(fmt, doc)
+                if fmt != "dict":
+                    # (a dict document is a live structure that model_to_dict / model_from_dict share containers with - not
+                    # demanded otherwise by the property; a text or pickle document cannot change, so whatever differs on the
+                    # second load is state kept by the loader)
+                    _touch_containers(first)
+                again = load(fmt, doc)
+            except Exception as e:
+                E.prove(False, "document-loads-again", exc=type(e).__name__, msg=str(e)[:200], what=fmt)
+                return
+            if fmt == "dict" and E.symbolic is False:
+                E.prove(doc == keep, "loading-leaves-the-document-alone", what=fmt)
+            elif fmt == "dict":
+                E.prove(sorted(doc) == sorted(keep) and [sorted(r) for r in doc["reactions"]] == [sorted(r) for r in keep["reactions"]]
+                        and [sorted(x) for x in doc["metabolites"]] == [sorted(x) for x in keep["metabolites"]],
+                        "loading-leaves-the-document-alone", what=fmt)
+            c = observe(again)
+            c["objective"].pop("direction", None)
+            c["lp"]["objective"].pop("direction", None)
+            same(E, a, c, "second-load-of-the-same-document=same-model", ignore_order=sort, skip=skip, what=fmt)
         try:
             m3 = roundtrip(fmt, m2, sort)
         except Exception as e:
